@@ -13,7 +13,8 @@ ARG_TY = {"none": None, "i64": "i64", "cstruct": "Pt", "ref": "&u64", "mutref": 
           "mutslice": "&mut [u8]", "str": "&str", "opt": "Option<u64>", "optnpo": "Option<&u64>",
           "result": "Result<u64, u64>", "into": "impl Into<u64>", "callback": "OpaqueCallback<u64>", "iter": "CIterator<u64>"}
 RET_TY = {"unit": None, "i64": "i64", "cstruct": "Pt", "slice": "&[u8]", "mutslice": "&mut [u8]", "str": "&str",
-          "opt": "Option<u64>", "optnpo": "Option<&u64>", "result": "Result<u64, ()>", "resunit": "Result<(), ()>"}
+          "opt": "Option<u64>", "optnpo": "Option<&u64>", "result": "Result<u64, ()>", "resunit": "Result<(), ()>",
+          "resneg": "Result<u64, NegErr>"}
 
 # callee: compute digest `d` of the received argument, log it (and its address), write through &mut shapes
 ARG_BODY = {
@@ -50,6 +51,7 @@ def ret_expr(ret, recv):
         "optnpo": "{ let this = %s; if s2 %% 2 == 0 { log(&this.cell as *const u64 as i64 - this as *const Imp as i64); Some(&this.cell) } else { None } }" % tr,
         "result": "if s2 % 2 == 0 { Ok(s2 as u64) } else { Err(()) }",
         "resunit": "if s2 % 2 == 0 { Ok(()) } else { Err(()) }",
+        "resneg": "if s2 % 2 == 0 { Ok(s2 as u64) } else { Err(NegErr { code: -2 - (s2 % 5) as i32 }) }",
     }[ret]
 
 
@@ -65,6 +67,7 @@ RET_DIGEST = {
     "optnpo": "let rd: Vec<i64> = match r { None => vec![-1], Some(v) => vec![1, *v as i64, v as *const u64 as i64 - imp_addr] };",
     "result": "let rd: Vec<i64> = match r { Ok(v) => vec![0, v as i64], Err(()) => vec![1] };",
     "resunit": "let rd: Vec<i64> = match r { Ok(()) => vec![0], Err(()) => vec![1] };",
+    "resneg": "let rd: Vec<i64> = match r { Ok(v) => vec![0, v as i64], Err(e) => vec![1, e.code as i64] };",
 }
 
 # caller: argument set-up for variant v (0/1): declares locals, `sent_d` (digest), `sent_addr` (0 if n/a), the
@@ -85,15 +88,16 @@ def arg_setup(arg, v):
         val = ["77u64", "u64::MAX / 4"][v]
         return "let mut av: u64 = %s; let sent_d = av as i64; let sent_addr = &av as *const u64 as i64;" % val, "&mut av", "let post: Vec<i64> = vec![av as i64];"
     if arg in ("slice", "mutslice"):
-        val = ["vec![]", "vec![1u8, 2, 250]"][v]
+        # variant 0 is an *empty* slice in the middle of a live buffer: its address is meaningful
+        rng = ["[2..2]", "[..]"][v]
         mut = "mut " if arg == "mutslice" else ""
-        amp = "&mut av[..]" if arg == "mutslice" else "&av[..]"
-        return ("let %sav: Vec<u8> = %s; let sent_d = av.iter().map(|&b| b as i64).sum::<i64>() + av.len() as i64 * 1000; let sent_addr = av.as_ptr() as i64;" % (mut, val),
+        amp = ("&mut av%s" if arg == "mutslice" else "&av%s") % rng
+        return ("let %sav: Vec<u8> = vec![1u8, 2, 250]; let sent_d = av%s.iter().map(|&b| b as i64).sum::<i64>() + av%s.len() as i64 * 1000; let sent_addr = av%s.as_ptr() as i64;" % (mut, rng, rng, rng),
                 amp, "let post: Vec<i64> = av.iter().map(|&b| b as i64).collect();")
     if arg == "str":
-        val = ['""', '"a\\u{e9}\\u{10348}"'][v]
-        return ("let av: String = String::from(%s); let sent_d = av.bytes().map(|b| b as i64).sum::<i64>() + av.len() as i64 * 1000; let sent_addr = av.as_ptr() as i64;" % val,
-                "&av[..]", "let post: Vec<i64> = av.bytes().map(|b| b as i64).collect();")
+        rng = ["[1..1]", "[..]"][v]
+        return ("let av: String = String::from(\"a\\u{e9}\\u{10348}\"); let sent_d = av%s.bytes().map(|b| b as i64).sum::<i64>() + av%s.len() as i64 * 1000; let sent_addr = av%s.as_ptr() as i64;" % (rng, rng, rng),
+                "&av%s" % rng, "let post: Vec<i64> = av.bytes().map(|b| b as i64).collect();")
     if arg == "opt":
         val = ["None", "Some(u64::MAX)"][v]
         return "let av: Option<u64> = %s; let sent_d = match av { None => -1, Some(v) => (v %% 100000) as i64 }; let sent_addr = 0i64;" % val, "av", "let post: Vec<i64> = vec![];"
@@ -241,6 +245,21 @@ pub struct Pt {
     pub z: u8,
 }
 
+/// a user error type with negative integer codes (errno style)
+#[repr(C)]
+#[derive(Clone, Copy, PartialEq, Debug)]
+pub struct NegErr {
+    pub code: i32,
+}
+impl cglue::result::IntError for NegErr {
+    fn into_int_err(self) -> std::num::NonZeroI32 {
+        std::num::NonZeroI32::new(self.code).unwrap()
+    }
+    fn from_int_err(err: std::num::NonZeroI32) -> Self {
+        NegErr { code: err.get() }
+    }
+}
+
 thread_local! { static LOG: RefCell<Vec<i64>> = RefCell::new(Vec::new()); }
 pub fn log(v: i64) {
     LOG.with(|l| l.borrow_mut().push(v));
@@ -362,7 +381,7 @@ def main():
     os.makedirs(os.path.join(out_dir, "src"), exist_ok=True)
     index = []
     if lint:
-        parts = ["pub use cglue::prelude::v1::*;\npub use cglue::*;\npub use std::pin::Pin;\n#[repr(C)]\n#[derive(Clone, Copy)]\npub struct Pt { pub x: i32, pub y: i64, pub z: u8 }\n"]
+        parts = ["pub use cglue::prelude::v1::*;\npub use cglue::*;\npub use std::pin::Pin;\n#[repr(C)]\n#[derive(Clone, Copy)]\npub struct Pt { pub x: i32, pub y: i64, pub z: u8 }\n#[repr(C)]\n#[derive(Clone, Copy)]\npub struct NegErr { pub code: i32 }\nimpl cglue::result::IntError for NegErr {\n    fn into_int_err(self) -> std::num::NonZeroI32 { std::num::NonZeroI32::new(self.code).unwrap() }\n    fn from_int_err(err: std::num::NonZeroI32) -> Self { NegErr { code: err.get() } }\n}\n"]
         for k, e in enumerate(defs):
             tr, _ = render_trait(k, e["d"])
             parts.append("pub mod d%d {\n    use super::*;\n%s}\n" % (k, tr))
